@@ -5,6 +5,12 @@ V = "/verif"
 props = [json.loads(l) for l in open(V + "/properties.jsonl")]
 
 CLAIMED = {
+ "C01": dict(
+    text="ORDER/PURITY/PATH rules over e2fsck: every in-place change of the live block/inode bitmap is followed (or dominated) by its dirty-mark on every path on which the repair completes, with open obligations passed to call sites and callback receivers up the call graph; "
+         "fix_problem's declined-answer bookkeeping and the exit-status computation (shared with C02.c); pass table order 1<2<3<4<5 with pass 5 last, RUN_RETURN tested before each pass, restart honoured; end-of-run bitmaps < flush < io flush < close on every writable path with PR_FATAL failure rows; "
+         "the answer of every prompting fix_problem() is used (228 sites); bitmap checksum verification in pass 5 may be skipped only for a dirty bitmap of the same kind; removal of the orphan file releases or re-creates its inode in e2fsck and tune2fs alike. "
+         "Decides the bookkeeping that turns 'repair applied' into 'repair on disk and reported'; not that each repair is semantically right.",
+    ref="§4 C01", technique="static analysis: must-pass-through with interprocedural obligation passing, MUST summaries, path-sensitive exploration, table checks"),
  "C16": dict(
     text="Two structural necessary conditions only (set semantics over histories is not decided): (a) every block-number entry of the generic 64-bit bitmap layer converts to cluster units before dispatching to the backend slot "
          "(single entries shift the argument; range entries shift the start, round the end up by one cluster minus one and recompute the length; find_first_* shift bounds in and the result out), range-checks the converted value, and the two cluster-unit entries do not shift; "
